@@ -3,7 +3,7 @@
 # Applies <seed-dir>/patch.diff to a scratch copy of /repo, confirms the demo fails there and passes on /repo,
 # runs the given checks against the copy (VERIF_REPO) and prints their verdicts; removes the copy.
 set -u
-SEED=$1; shift
+SEED=$(realpath $1); shift
 M=$(mktemp -d /tmp/mrepo.XXXXXX)
 git -C /repo archive HEAD | tar -x -C $M
 if ! git -C $M apply --unsafe-paths --directory=$M $SEED/patch.diff 2>/dev/null; then
